@@ -9,8 +9,9 @@ import re
 
 from .. import templates as T
 from ..mir import call_matches, callee_name, op_local, op_const_int
-from ..flow import arg_place, ok_return_blocks, expr
+from ..flow import arg_place, ok_return_blocks, expr, TRANSPARENT_CALLS
 from ..src import walk
+from .. import sympath
 
 CLAIM = {
     "text": "Structural clauses of the kitty graphics output of KittyImageHandler::{draw,erase,handle}: every written byte lies in a complete APC "
@@ -23,8 +24,9 @@ CLAIM = {
             "re-drawing (MIR dominance); the pixel loop is the image's row-major iterator writing to_rgba() ([u8;4]) into the base64 encoder "
             "whose finish() is what is chunked, f=32. Not decided: base64 correctness (C14), numeric id ranges/injectivity for all inputs "
             "(hook `obligations`), hash collisions, terminal behaviour.",
-    "technique": "output-template extraction and APC command parsing on templates, reference key table, MIR expression trees of the id "
-                 "functions, MIR must-pass/dominance rules, call graph who-calls",
+    "technique": "output-template extraction (helpers that receive the sink inlined, Option adapters and for_each chains normalised) and APC "
+                 "command parsing on templates, reference key table, per-path symbolic expression trees of the id functions (sa.sympath), "
+                 "value provenance and must-pass/dominance rules on MIR with private helpers inlined, call graph who-calls",
     "design_ref": "DESIGN.md §5 C11; §4 output templates, reference tables",
 }
 
@@ -165,50 +167,394 @@ def commands_of(t, context, out, problems):
 
 
 # ------------------------------------------------------------------------------------------------
-# straight-line MIR expression trees (id functions)
+# template extraction that decides on meaning: Option adapters, provably immutable locals, helper calls
 # ------------------------------------------------------------------------------------------------
-def mir_tree(body, operand, depth=0):
-    if depth > 40:
-        return ("?",)
-    if operand["k"] == "const":
-        v = op_const_int(operand)
-        return ("const", v) if v is not None else ("?",)
-    p = operand["place"]
-    l = p["l"]
-    proj = [e for e in p["p"]]
-    if 0 < l <= body.arg_count:
-        t = ("arg", l)
-        for e in proj:
-            if e["k"] == "field":
-                t = ("field", t, e["name"])
-            elif e["k"] != "deref":
-                return ("?",)
-        return t
-    ds = body.defs_of(l)
-    if len(ds) != 1:
-        return ("?",)
-    bb, si, rv = ds[0]
-    if si == "term":
-        return ("call", callee_name(rv), tuple(mir_tree(body, a, depth + 1) for a in rv["args"]))
-    k = rv["k"]
-    if proj:
-        # (_11.0) of a checked arithmetic pair
-        if k == "bin" and rv["op"].endswith("WithOverflow") and len(proj) == 1 and proj[0]["k"] == "field" and proj[0]["name"] in ("0",):
-            return (rv["op"][:-len("WithOverflow")].lower(), mir_tree(body, rv["a"], depth + 1), mir_tree(body, rv["b"], depth + 1))
-        return ("?",)
-    if k == "use":
-        return mir_tree(body, rv["a"], depth + 1)
-    if k == "cast":
-        return mir_tree(body, rv["a"], depth + 1)      # integer widening/narrowing is transparent for the shape
-    if k == "ref":
-        return mir_tree(body, {"k": "copy", "place": rv["place"]}, depth + 1)
-    if k == "bin":
-        return (rv["op"].lower(), mir_tree(body, rv["a"], depth + 1), mir_tree(body, rv["b"], depth + 1))
-    if k == "agg" and rv["ak"] == "adt":
-        return ("adt", rv["adt"], tuple(zip(rv.get("fnames") or [], [mir_tree(body, f, depth + 1) for f in rv["fields"]])))
-    return ("?",)
+_INTERIOR = re.compile(r"&mut |\*mut |Cell|Mutex|RwLock|Atomic|dyn |impl ")
+_OPTION_TRANSPARENT = ("as_ref", "as_deref", "copied", "cloned")
+_PAYLOAD_OF = ("unwrap", "expect", "unwrap_unchecked")
 
 
+class KExtractor(T.Extractor):
+    """`templates.Extractor` with three semantic refinements (all local to this rule):
+    * a method call on a plain non-`mut` local whose MIR type has no `&mut`/interior mutability cannot change it, whatever
+      the method is called (the base class only knows a whitelist of pure method names);
+    * `X.map(F)` is `Some` exactly when `X` is and then holds `F(payload of X)`; `as_ref/copied/cloned` keep variant and
+      payload; `X.unwrap()` is the payload: predicates and holes are expressed over `X` itself;
+    * `X.is_some()` / `X.is_none()` are the variant test of X."""
+
+    def __init__(self, src, file, fn_item, sinks=None, env=None, depth=0, mir=None, shared=None):
+        self.mir = mir
+        self.shared = shared if shared is not None else {"alias": {}, "bool": {}}
+        T.Extractor.__init__(self, src, file, fn_item, sinks=sinks, env=env, depth=depth)
+
+    # ---- stability ---------------------------------------------------------------------------------
+    def _mutated(self, body):
+        mut = T.Extractor._mutated(self, body)
+        if self.mir is None:
+            return mut
+        hard = set()
+
+        def f(n, parents):
+            k = n.get("k")
+            if k == "assign" or (k == "bin" and n["op"] in T.ASSIGN_OPS):
+                hard.add(T.canon(n["l"]))
+            elif k == "ref" and n.get("mut") and "pat" not in n:
+                hard.add(T.canon(n["e"]))
+            elif k == "ident" and n.get("mut") and "by_ref" in n:
+                hard.add(n["name"])
+            elif k == "let" and n.get("pat", {}).get("k") == "ident" and n["pat"].get("mut"):
+                hard.add(n["pat"]["name"])
+        walk(body, f)
+        for p in self.fn["sig"]["inputs"]:
+            if p.get("pat") and p["pat"].get("mut") and p["pat"].get("name"):
+                hard.add(p["pat"]["name"])
+        by_name = {}
+        for l, nm in self.mir.varnames.items():
+            by_name.setdefault(nm, []).append(self.mir.local_ty(l))
+        for nm in list(mut):
+            if nm in hard or nm == "self" or not re.match(r"^[A-Za-z_]\w*$", nm):
+                continue
+            if any(T._overlap(nm, h) for h in hard):
+                continue
+            tys = by_name.get(nm)
+            if tys and not any(_INTERIOR.search(ty) for ty in tys):
+                mut.discard(nm)
+        return mut
+
+    # ---- `iter.for_each(|pat| body)` / `iter.try_for_each(|pat| body)` is `for pat in iter { body }` -----------------
+    def _mcall(self, e, env):
+        if e["m"] in ("for_each", "try_for_each") and len(e["args"]) == 1 and e["args"][0].get("k") == "closure" \
+                and len(e["args"][0]["params"]) == 1 and not self.is_sink(e["recv"]) and self.mentions_sink(e["args"][0]["body"]):
+            c = e["args"][0]
+            body = c["body"]
+            if body.get("k") != "block":
+                body = {"k": "block", "stmts": [{"k": "expr", "e": body, "semi": False, "line": body.get("line", 0)}], "line": body.get("line", 0)}
+            # a `return` inside the closure ends one iteration only; the loop template forbids return/break in a writing body anyway
+            loop = {"k": "for", "label": None, "pat": c["params"][0], "iter": e["recv"], "body": body, "line": e.get("line", 0)}
+            return self._loop(loop, env)
+        return T.Extractor._mcall(self, e, env)
+
+    # ---- normal form of resolved expressions -----------------------------------------------------------
+    def resolve(self, node, env):
+        r = T.Extractor.resolve(self, node, env)
+        if isinstance(r, dict):
+            return self._norm(r)
+        return r
+
+    def _norm(self, n):
+        if isinstance(n, list):
+            out = [self._norm(x) for x in n]
+            return out if any(a is not b for a, b in zip(out, n)) else n
+        if not isinstance(n, dict):
+            return n
+        changed = False
+        out = {}
+        for key, v in n.items():
+            if key in ("tokens", "pat", "params") or not isinstance(v, (dict, list)):
+                out[key] = v
+                continue
+            w = self._norm(v)
+            changed = changed or (w is not v)
+            out[key] = w
+        if not changed:
+            out = n
+        k = out.get("k")
+        if k == "mcall":
+            m, recv, args = out["m"], out["recv"], out["args"]
+            if m in _OPTION_TRANSPARENT and not args:
+                return recv
+            if m in _PAYLOAD_OF and len(args) <= 1:
+                return {"k": "field", "e": recv, "name": "0", "line": out.get("line", 0)}
+            if m == "map" and len(args) == 1:
+                self.shared["alias"][T.canon(out)] = T.canon(recv)
+            if m in ("is_some", "is_none") and not args:
+                self.shared["bool"][T.canon(out)] = ("v:" + T.canon(recv), m == "is_some")
+        if k == "field" and out.get("name") == "0" and isinstance(out.get("e"), dict):
+            e = out["e"]
+            if e.get("k") == "mcall" and e["m"] == "map" and len(e["args"]) == 1:
+                payload = {"k": "field", "e": e["recv"], "name": "0", "line": out.get("line", 0)}
+                f = e["args"][0]
+                if f.get("k") == "path":
+                    return {"k": "call", "f": f, "args": [payload], "line": out.get("line", 0)}
+                if f.get("k") == "closure" and len(f["params"]) == 1 and f["params"][0].get("k") == "ident" and not f["params"][0].get("mut"):
+                    return self._norm(T.Extractor.resolve(self, f["body"], {f["params"][0]["name"]: payload}))
+        return out
+
+
+def rekey(t, shared):
+    """rewrite the case variables of a template through the aliases found by KExtractor (in place)"""
+    alias, bools = shared["alias"], shared["bool"]
+
+    def key_of(k):
+        seen = 0
+        while k.startswith("v:") and k[2:] in alias and seen < 8:
+            k = "v:" + alias[k[2:]]
+            seen += 1
+        return k
+
+    def pred(p):
+        k = p[0]
+        if k == "var":
+            key, vals = p[1], p[2]
+            if key.startswith("b:") and key[2:] in bools and vals <= {"T", "F"}:
+                vkey, is_some = bools[key[2:]]
+                q = T.p_var(key_of(vkey), {"Some"})
+                if ("T" in vals) != is_some:
+                    q = T.p_not(q)
+                return q if len(vals) == 1 else (T.TRUE if len(vals) == 2 else T.FALSE)
+            if key.startswith("v:") and vals <= {"Some", "None"}:
+                return T.p_var(key_of(key), vals)
+            return p
+        if k == "not":
+            return T.p_not(pred(p[1]))
+        if k == "and":
+            return T.p_and([pred(q) for q in p[1]])
+        if k == "or":
+            return T.p_or([pred(q) for q in p[1]])
+        return p
+
+    def go(x):
+        if isinstance(x, T.Seq):
+            for i in x.items:
+                go(i)
+        elif isinstance(x, T.Scope):
+            go(x.body)
+        elif isinstance(x, T.Alt):
+            x.branches = [(pred(p), b) for p, b in x.branches]
+            for _, b in x.branches:
+                go(b)
+        elif isinstance(x, T.Star):
+            go(x.body)
+        elif isinstance(x, T.Join):
+            go(x.sep)
+            go(x.item)
+    go(t)
+    return t
+
+
+def inline_helpers(t, src, prog, file, impl_self, shared, budget=6):
+    """replace helper calls that receive the sink (private fns of the same file / methods of the handler) by their templates"""
+    def resolver(call):
+        nm = call.name.split("::")[-1]
+        if call.recv_node is not None:
+            if T.canon(call.recv_node) != "self":
+                return None
+            return src.fn(nm, impl_self=re.escape(impl_self)) if impl_self else None
+        return src.fn(nm, file=file, impl_self=None) if "::" not in call.name else (src.fn(nm, impl_self=re.escape(impl_self)) if call.name.startswith("Self::") and impl_self else None)
+
+    def mir_of(fn_file, fn, recv):
+        if recv:
+            bs = prog.method(re.escape(impl_self) + "$", fn["name"], "*") if impl_self else []
+        else:
+            bs = [b for b in prog.find(r"(^|::)%s$" % re.escape(fn["name"])) if b.kind == "Fn" and b.file == fn_file]
+        return bs[0] if len(bs) == 1 else None
+
+    def go(x, budget):
+        if isinstance(x, T.Seq):
+            return T.Seq([go(i, budget) for i in x.items])
+        if isinstance(x, T.Scope):
+            return T.Scope(go(x.body, budget), x.name)
+        if isinstance(x, T.Alt):
+            return T.Alt([(p, go(b, budget)) for p, b in x.branches], line=x.line)
+        if isinstance(x, T.Star):
+            s = T.Star(go(x.body, budget), x.iter_text, x.names, kind=x.kind, iter_node=x.iter_node, line=x.line)
+            if hasattr(x, "enumerated"):
+                s.enumerated = x.enumerated
+            return s
+        if isinstance(x, T.Join):
+            return T.Join(x.over, go(x.sep, budget), go(x.item, budget), star=x.star, line=x.line)
+        if isinstance(x, T.Call):
+            r = resolver(x)
+            if r is None or budget <= 0:
+                return x
+            cfile, fn = r
+            params = list(fn["sig"]["inputs"])
+            env = {}
+            sinks = []
+            if params and params[0]["name"] == "self":
+                if x.recv_node is None:
+                    return x
+                env["self"] = x.recv_node
+                params = params[1:]
+            elif x.recv_node is not None:
+                return x
+            if len(params) != len(x.args):
+                return x
+            for p, a in zip(params, x.args):
+                nm = p.get("pat", {}).get("name") if p.get("pat") else None
+                if nm is None:
+                    return x
+                if a is None:
+                    sinks.append(nm)
+                elif not p["pat"].get("mut"):
+                    env[nm] = a
+            ex = KExtractor(src, cfile, fn, sinks=sinks, env=env, mir=mir_of(cfile, fn, x.recv_node is not None), shared=shared)
+            return go(ex.template(), budget - 1)
+        return x
+    return go(t, budget)
+
+
+# ------------------------------------------------------------------------------------------------
+# continuation flag: a condition over the chunk index I and the number of chunks N, decided by value
+# ------------------------------------------------------------------------------------------------
+class _NotArith(Exception):
+    pass
+
+
+def _arith(text, count_texts):
+    """parse canonical expression text over `#index`, the chunk count and integer literals into a tuple tree"""
+    s = text
+    for ct in sorted(count_texts, key=len, reverse=True):
+        s = s.replace(ct, "N")
+    s = re.sub(r"#index\d*", "I", s)
+    pos = [0]
+
+    def peek():
+        return s[pos[0]] if pos[0] < len(s) else ""
+
+    def atom():
+        c = peek()
+        if c == "(":
+            pos[0] += 1
+            a = atom()
+            if s.startswith(" as ", pos[0]):
+                m = re.match(r" as (\w+)\)", s[pos[0]:])
+                if not m or m.group(1) not in T.INT_TYPES:
+                    raise _NotArith(text)
+                pos[0] += m.end()
+                return a
+            op = peek()
+            if op not in "+-*":
+                raise _NotArith(text)
+            pos[0] += 1
+            b = atom()
+            if peek() != ")":
+                raise _NotArith(text)
+            pos[0] += 1
+            return (op, a, b)
+        if c in ("N", "I"):
+            pos[0] += 1
+            return (c,)
+        m = re.match(r"\d+", s[pos[0]:])
+        if m:
+            pos[0] += m.end()
+            return ("num", int(m.group(0)))
+        raise _NotArith(text)
+    a = atom()
+    if pos[0] != len(s):
+        raise _NotArith(text)
+    return a
+
+
+def _arith_consts(a, out):
+    if a[0] == "num":
+        out.append(a[1])
+    elif a[0] in "+-*":
+        _arith_consts(a[1], out)
+        _arith_consts(a[2], out)
+        if a[0] == "*" and a[1][0] != "num" and a[2][0] != "num":
+            raise _NotArith("non-linear")
+    return out
+
+
+def _arith_eval(a, i, n):
+    k = a[0]
+    if k == "num":
+        return a[1]
+    if k == "I":
+        return i
+    if k == "N":
+        return n
+    x, y = _arith_eval(a[1], i, n), _arith_eval(a[2], i, n)
+    if k == "+":
+        return x + y
+    if k == "*":
+        return x * y
+    if x < y:
+        raise _NotArith("unsigned underflow")      # would panic (debug) or wrap (release): not the flag
+    return x - y
+
+
+class MoreFlag:
+    """Is a predicate over comparison variables `c:A,B` (A, B arithmetic in the chunk index and the chunk count) true exactly
+    when another chunk follows, i.e. index + 1 < count, for every 0 <= index < count?  Atoms are linear with small constants, so
+    evaluating on the grid 0 <= index < count <= 2*K+6 (K = largest constant) decides it."""
+
+    def __init__(self, count_texts):
+        self.count_texts = count_texts
+        self.cache = {}
+
+    def sides(self, key):
+        if key not in self.cache:
+            r = None
+            if key.startswith("c:"):
+                # the two sides are canonical texts joined by the comma that is at parenthesis depth 0
+                body = key[2:]
+                depth = 0
+                for j, ch in enumerate(body):
+                    if ch in "([":
+                        depth += 1
+                    elif ch in ")]":
+                        depth -= 1
+                    elif ch == "," and depth == 0:
+                        try:
+                            a, b = _arith(body[:j], self.count_texts), _arith(body[j + 1:], self.count_texts)
+                            ks = _arith_consts(a, []) + _arith_consts(b, [])
+                            if max(ks + [0]) <= 16:
+                                r = (a, b, max(ks + [0]))
+                        except _NotArith:
+                            pass
+                        if r is not None:
+                            break
+            self.cache[key] = r
+        return self.cache[key]
+
+    def order(self, key, i, n):
+        a, b, _ = self.sides(key)
+        x, y = _arith_eval(a, i, n), _arith_eval(b, i, n)
+        return "lt" if x < y else ("gt" if x > y else "eq")
+
+    def grid(self, keys):
+        k = max([self.sides(key)[2] for key in keys] + [0])
+        top = 2 * k + 6
+        return [(i, n) for n in range(1, top + 1) for i in range(0, n)]
+
+    def pred_is_flag(self, p):
+        keys = {}
+        T.pred_vars(p, keys)
+        if not keys or any(self.sides(key) is None for key in keys):
+            return False
+        try:
+            for (i, n) in self.grid(keys):
+                val = {key: self.order(key, i, n) for key in keys}
+                if T.pred_eval(p, val) != (i + 1 < n):
+                    return False
+        except _NotArith:
+            return False
+        return True
+
+    def literal_is_flag(self, lit, val):
+        """a literal 0/1 emitted under branch valuation `val`: right iff on every (index, count) consistent with the valuation
+        the flag has that value (None: the valuation does not constrain index/count through understood comparisons)"""
+        keys = [key for key in val if key.startswith("c:") and self.sides(key) is not None]
+        if not keys:
+            return None
+        seen = False
+        for (i, n) in self.grid(keys):
+            try:
+                if any(self.order(key, i, n) != val[key] for key in keys):
+                    continue
+            except _NotArith:
+                continue
+            seen = True
+            if lit != ("1" if i + 1 < n else "0"):
+                return False
+        return True if seen else "infeasible"
+
+
+# ------------------------------------------------------------------------------------------------
+# expression trees of the id functions (built per returning path by `return_paths` below)
+# ------------------------------------------------------------------------------------------------
 def tree_text(t):
     k = t[0]
     if k == "const":
@@ -226,8 +572,100 @@ def tree_text(t):
     return "(%s %s %s)" % (tree_text(t[1]), {"add": "+", "sub": "-", "mul": "*", "div": "/", "rem": "%", "bitor": "|"}.get(k, k), tree_text(t[2]))
 
 
-def return_tree(body):
-    return mir_tree(body, {"k": "copy", "place": {"l": 0, "p": []}})
+# ---- path-sensitive trees (sa.sympath): one tree per returning path, with the branch facts of the path ----------
+def st_tree(t):
+    """sympath term -> the tuple trees used by the id-function rules (casts transparent, checked pairs unwrapped)"""
+    if not isinstance(t, tuple) or not t:
+        return ("?",)
+    k = t[0]
+    if k == "c":
+        v = sympath.const_int(t)
+        return ("const", v) if v is not None else ("?",)
+    if k == "arg":
+        return ("arg", t[1])
+    if k == "f":
+        inner = t[1]
+        # payload of `x.checked_sub(c)` on the path where it is Some: x - c
+        if t[2] == "0" and inner[0] == "dc" and inner[2] == "Some" and inner[1][0] == "call" and re.search(r"::checked_sub$", inner[1][1]) and len(inner[1][2]) == 2:
+            return ("sub", st_tree(inner[1][2][0]), st_tree(inner[1][2][1]))
+        b = st_tree(inner)
+        return ("field", b, t[2]) if b[0] in ("arg", "field") else ("?",)
+    if k == "bin":
+        return (t[1].replace("WithOverflow", "").lower(), st_tree(t[2]), st_tree(t[3]))
+    if k == "cast":
+        return st_tree(t[2]) if not t[1].count(":") else ("?",)
+    if k == "agg" and t[4] is not None:
+        return ("adt", t[1], tuple(zip(t[4], [st_tree(f) for f in t[3]])))
+    if k == "call":
+        return ("call", t[1], tuple(st_tree(a) for a in t[2]))
+    return ("?",)
+
+
+def return_paths(prog, body, depth=0):
+    """[(facts, tree)] of every path of the function that returns (diverging paths, e.g. a failing debug_assert!, are not
+    results); helpers with this function as only caller are seen through.  [] when the function is not loop-free."""
+    b = prog.inlined(body.path) or body
+    try:
+        ps = sympath.evaluator(b, max_paths=400).paths()
+    except sympath.TooManyPaths:
+        return []
+    out = []
+    for p in ps:
+        if p.end[0] == "loop":
+            return []
+        if p.end[0] == "return":
+            out.append((p.facts, expand_calls(prog, st_tree(p.ret), depth)))
+    return out
+
+
+def _subst_args(t, args):
+    if not isinstance(t, tuple):
+        return t
+    if t[0] == "arg":
+        return args[t[1] - 1] if 0 < t[1] <= len(args) else ("?",)
+    if t[0] == "adt":
+        return ("adt", t[1], tuple((n, _subst_args(x, args)) for n, x in t[2]))
+    if t[0] == "call":
+        return ("call", t[1], tuple(_subst_args(x, args) for x in t[2]))
+    if t[0] == "field":
+        b = _subst_args(t[1], args)
+        if b[0] == "adt":
+            d = dict(b[2])
+            return d.get(t[2], ("?",))
+        return ("field", b, t[2]) if b[0] in ("arg", "field") else ("?",)
+    return (t[0],) + tuple(_subst_args(x, args) if isinstance(x, tuple) else x for x in t[1:])
+
+
+def expand_calls(prog, t, depth=0):
+    """replace calls of small crate-local functions that have exactly one returning path (constructors such as
+    `Position::new`, shared arithmetic helpers) by their value"""
+    if not isinstance(t, tuple) or depth > 3:
+        return t
+    if t[0] == "adt":
+        return ("adt", t[1], tuple((n, expand_calls(prog, x, depth)) for n, x in t[2]))
+    if t[0] == "call":
+        args = tuple(expand_calls(prog, a, depth) for a in t[2])
+        b = prog.body(t[1]) if isinstance(t[1], str) else None
+        if b is not None and b.kind in ("Fn", "AssocFn") and b.file.startswith("src/") and len(b.blocks) <= 12 and b.arg_count == len(args):
+            rps = return_paths(prog, b, depth + 1)
+            if len(rps) == 1 and "?" not in repr(rps[0][1]):
+                return _subst_args(rps[0][1], args)
+        return ("call", t[1], args)
+    return (t[0],) + tuple(expand_calls(prog, x, depth) if isinstance(x, tuple) else x for x in t[1:])
+
+
+def excluded_by_lower_bound(facts, arg, lo):
+    """do the path facts contradict `arg >= lo`?  (`arg < c` with c <= lo, `arg == c` with c < lo, `arg.checked_sub(c)` is None with c <= lo)"""
+    a = ("arg", arg)
+    for f in facts:
+        if f[0] == "lt" and f[1] == a and sympath.const_int(f[2]) is not None and sympath.const_int(f[2]) <= lo:
+            return True
+        if f[0] == "eq" and f[1] == a and sympath.const_int(f[2]) is not None and sympath.const_int(f[2]) < lo:
+            return True
+        if f[0] == "is" and f[2] == "0" and f[1][0] == "call" and re.search(r"::checked_sub$", f[1][1]) and len(f[1][2]) == 2 \
+                and f[1][2][0] == a and sympath.const_int(f[1][2][1]) is not None and 0 < sympath.const_int(f[1][2][1]) <= lo:
+            return True
+    return False
 
 
 def visibly_nonzero(t):
@@ -243,6 +681,8 @@ def visibly_nonzero(t):
         return visibly_nonzero(t[2][1])
     if k == "call" and re.search(r"NonZero.*::get$", t[1]):
         return True
+    if k == "call" and re.search(r"::saturating_add$", t[1]) and len(t[2]) == 2:
+        return visibly_nonzero(t[2][0]) or visibly_nonzero(t[2][1])
     if k == "mul":
         return visibly_nonzero(t[1]) and visibly_nonzero(t[2])
     return False
@@ -290,7 +730,290 @@ def strip_offset(t):
         return t[1], t[2][1]
     if t[0] == "call" and re.search(r"::(saturating_sub|wrapping_sub)$", t[1]) and len(t[2]) == 2 and t[2][1][0] == "const":
         return t[2][0], t[2][1][1]
+    if t[0] == "call" and re.search(r"::unwrap_or(_default)?$", t[1]) and t[2] and (len(t[2]) == 1 or t[2][1] == ("const", 0)):
+        c = t[2][0]
+        if c[0] == "call" and re.search(r"::checked_sub$", c[1]) and len(c[2]) == 2 and c[2][1][0] == "const":
+            return c[2][0], c[2][1][1]
     return t, 0
+
+
+# ------------------------------------------------------------------------------------------------
+# value provenance in a MIR body (helpers inlined): where does this operand come from
+# ------------------------------------------------------------------------------------------------
+_IDENTITY_CALLS = TRANSPARENT_CALLS + [r"IntoIterator>::into_iter$", r"^std::iter::IntoIterator::into_iter$", r"Iterator::by_ref$",
+                                       r"Iterator::(copied|cloned)$", r"^std::clone::Clone::clone$", r"Option::<.*>::(copied|cloned|as_ref)$"]
+_OK_VARIANTS = ("Ok", "Some", "Continue")
+
+
+def _is_error_def(d):
+    bb, si, rv = d
+    if si == "term":
+        return call_matches(rv, r"FromResidual.*::from_residual$")
+    return rv["k"] == "agg" and rv.get("variant") in ("Err", "None", "Break")
+
+
+def chase(body, o, depth=0):
+    """Follow an operand through copies, moves, references, unsizing, `?`/From/Into/into_iter, and success payloads
+    (`Ok(x)` built in one place and unwrapped in another, e.g. across an inlined helper's return) to its definition:
+        ("call", (bb, term), projs) | ("arg", n, projs) | ("const", operand, projs) | ("rv", (bb, rvalue), projs) | ("multi", local, projs)
+    projs = the non-deref projections still applied to that definition (innermost first).  Error-producing definitions of a
+    local (`Err(..)`, `from_residual`) are not values that flow on: a local defined once apart from those is single-definition."""
+    projs = []
+    while depth < 60:
+        depth += 1
+        if o["k"] == "const":
+            return ("const", o, projs)
+        pl = o["place"]
+        l = pl["l"]
+        projs = [e for e in pl["p"] if e["k"] != "deref"] + projs
+        if 0 < l <= body.arg_count:
+            return ("arg", l, projs)
+        ds = body.defs_of(l)
+        if len(ds) != 1:
+            good = [d for d in ds if not _is_error_def(d)]
+            if len(good) != 1:
+                return ("multi", l, projs)
+            ds = good
+        bb, si, rv = ds[0]
+        if si == "term":
+            if rv["args"] and any(call_matches(rv, rx) for rx in _IDENTITY_CALLS):
+                o = rv["args"][0]
+                continue
+            return ("call", (bb, rv), projs)
+        k = rv["k"]
+        if k == "use":
+            o = rv["a"]
+            continue
+        if k in ("ref", "rawptr"):
+            o = {"k": "copy", "place": rv["place"]}
+            continue
+        if k == "cast" and rv["ck"].startswith("PointerCoercion"):
+            o = rv["a"]
+            continue
+        if k == "agg" and rv["ak"] == "adt" and rv.get("variant") in _OK_VARIANTS and len(rv["fields"]) == 1 and len(projs) >= 2 \
+                and projs[0]["k"] == "downcast" and projs[0].get("variant") in _OK_VARIANTS and projs[1]["k"] == "field" and projs[1]["i"] == 0:
+            projs = projs[2:]
+            o = rv["fields"][0]
+            continue
+        return ("rv", (bb, rv), projs)
+    return ("multi", -1, projs)
+
+
+def root_local(body, o, depth=0):
+    """the local whose storage an operand (a value or a reference) denotes: `&mut _161`, `&mut (*_179)` -> 161"""
+    while depth < 40 and o["k"] != "const":
+        depth += 1
+        pl = o["place"]
+        l = pl["l"]
+        if any(e["k"] not in ("deref",) for e in pl["p"]):
+            return None
+        if 0 < l <= body.arg_count:
+            return l
+        ds = body.defs_of(l)
+        if len(ds) != 1 or ds[0][1] == "term":
+            return l
+        rv = ds[0][2]
+        if rv["k"] in ("ref", "rawptr"):
+            o = {"k": "copy", "place": rv["place"]}
+        elif rv["k"] == "use" and rv["a"]["k"] != "const":
+            o = rv["a"]           # a moved value is the same object; a copied reference points to the same storage
+        else:
+            return l
+    return None
+
+
+def _payload_projs(projs, extra=()):
+    """is the projection list exactly `as Some/Ok/Continue` `.0` followed by the field names in extra"""
+    want = 2 + len(extra)
+    if len(projs) != want or projs[0]["k"] != "downcast" or projs[0].get("variant") not in _OK_VARIANTS or projs[1]["k"] != "field" or projs[1]["i"] != 0:
+        return False
+    return all(e["k"] == "field" and e["name"] == nm for e, nm in zip(projs[2:], extra))
+
+
+def payload_rule(ctx, prog, refs, file_d, site_d, where_d, cmds):
+    """(e) on MIR with helpers inlined: one Base64Encoder; it is fed once per item of the image's own iterator (a loop over
+    `next()` or a closure given to for_each/try_for_each) with the whole `to_rgba()` array of that item; what is chunked is the
+    encoder's finish(); bytes per pixel match the declared format; Shape::nth is row-major."""
+    db = prog.inlined(DRAW)
+    img_args = [l for l in range(1, db.arg_count + 1) if re.match(r"^&(\'\w+ )?image::Image$", db.local_ty(l))]
+
+    def line(t):
+        return ["%s:%s" % (file_d, t.get("line"))] if t.get("line") else site_d
+
+    news = [(bb, t) for bb, t in db.calls() if call_matches(t, r"Base64Encoder::<.*>::new$|Base64Encoder::new$")]
+    ctx.instance("PAYLOAD", {"encoder_new_blocks": [bb for bb, _ in news], "helpers_inlined": db.j.get("inlined_calls", 0)})
+    if len(news) != 1 or news[0][1]["dest"]["p"]:
+        ctx.violation("PAYLOAD", where_d, "encoder", "draw does not create exactly one Base64Encoder (found %d)" % len(news), sites=site_d)
+        news = []
+    enc_new = news[0] if news else None
+    enc_l = enc_new[1]["dest"]["l"] if enc_new else None
+
+    # ---- every use of the encoder --------------------------------------------------------------------------
+    feeds = []        # (body, bb, term, closure_use | None)
+    finishes = []
+    other = []
+
+    def classify(body, bb, t, is_enc, via):
+        hit = [i for i, a in enumerate(t["args"]) if is_enc(a)]
+        if not hit:
+            return
+        if call_matches(t, r"Base64Encoder::<.*>::finish$|Base64Encoder::finish$") and hit == [0]:
+            finishes.append((body, bb, t))
+        elif call_matches(t, r"io::Write::write_all$|Write>::write_all$") and hit == [0]:
+            feeds.append((body, bb, t, via))
+        else:
+            other.append((body, bb, t))
+
+    if enc_l is not None:
+        for bb, t in db.calls():
+            if t is enc_new[1]:
+                continue
+            classify(db, bb, t, lambda a: a["k"] != "const" and root_local(db, a) == enc_l, None)
+        # closures capturing the encoder
+        for bb, si, st in db.assigns():
+            rv = st["rv"]
+            if rv["k"] == "agg" and rv["ak"] == "closure":
+                caps = [i for i, f in enumerate(rv["fields"]) if f["k"] != "const" and root_local(db, f) == enc_l]
+                cb = prog.body(rv["def"])
+                if not caps:
+                    continue
+                if cb is None or st["place"]["p"]:
+                    other.append((db, bb, {"fn": {"path": "closure " + rv["def"]}, "line": st.get("line")}))
+                    continue
+                # where the closure value goes
+                users = [(ub, ut, [i for i, a in enumerate(ut["args"]) if a["k"] != "const" and chase(db, a)[0] == "rv" and chase(db, a)[1][1] is rv])
+                         for ub, ut in db.calls()]
+                users = [(ub, ut, ix) for ub, ut, ix in users if ix]
+
+                def is_cap(a, caps=caps, cb=cb):
+                    if a["k"] == "const":
+                        return False
+                    r = chase(cb, a)
+                    return r[0] == "arg" and r[1] == 1 and len(r[2]) == 1 and r[2][0]["k"] == "field" and r[2][0]["i"] in caps
+                for cbb, ct in cb.calls():
+                    classify(cb, cbb, ct, is_cap, (users, rv))
+    for body, bb, t in other:
+        ctx.violation("PAYLOAD", where_d, "encoder-use", "the base64 encoder is passed to %s, which this rule does not understand (fail closed)" % (callee_name(t) or t["fn"].get("path")), sites=line(t))
+
+    # ---- the chunked value is the encoder's finish() ---------------------------------------------------------
+    chunk_calls = [(bb, t) for bb, t in db.calls() if call_matches(t, r"^core::slice::<impl \[T\]>::chunks$|\[T\]>::chunks$")]
+    fin_ok = False
+    what = "?"
+    if len(chunk_calls) == 1 and enc_new is not None:
+        r = chase(db, chunk_calls[0][1]["args"][0])
+        what = callee_name(r[1][1]) if r[0] == "call" else r[0]
+        if r[0] == "call" and _payload_projs(r[2]) and any(r[1][1] is f[2] for f in finishes):
+            a0 = chase(db, r[1][1]["args"][0])
+            fin_ok = a0[0] == "call" and a0[1][1] is enc_new[1] and not a0[2]
+    ctx.instance("PAYLOAD", {"chunks_calls": len(chunk_calls), "chunked_value_from": what, "is_finish_of_the_encoder": fin_ok})
+    if enc_new is not None and not fin_ok:
+        ctx.violation("PAYLOAD", where_d, "chunks-not-of-encoder-output", "the chunked value comes from `%s`, not from the Ok value of `<encoder>.finish()`" % what,
+                      sites=line(chunk_calls[0][1]) if chunk_calls else site_d)
+
+    # ---- the feeds: each once per item of the image's iterator, the whole to_rgba() array; alternatives (a fast path and a
+    #      general path in the two arms of a branch) are allowed when at most one of them can run ---------------------------
+    bpps = set()
+    lp = site_d
+    if enc_new is not None and not feeds:
+        ctx.instance("PAYLOAD", {"feeds": 0})
+        ctx.violation("PAYLOAD", where_d, "pixel-loop", "nothing writes into the base64 encoder", sites=site_d)
+    drivers = []
+    for body, fbb, ft, via in (feeds if enc_new is not None else []):
+        lp = line(ft)
+        data = chase(body, ft["args"][1])
+        rgba = data[1][1] if data[0] == "call" and call_matches(data[1][1], r"Color>::to_rgba$|::to_rgba$") else None
+        whole = rgba is not None and not data[2]
+        item = chase(body, rgba["args"][0]) if rgba is not None else None
+        iter_src = None       # (body, operand) of the iterator that yields the items
+        every = False
+        form = "?"
+        driver = None         # block of draw that runs this feed's iteration
+        if item is not None and via is None and item[0] == "call" and call_matches(item[1][1], r"Iterator>::next$|^std::iter::Iterator::next$"):
+            nbb, nt = item[1]
+            form = "loop over next()"
+            driver = nbb
+            extra = ()
+            src_o = nt["args"][0]
+            r = chase(body, src_o)
+            if r[0] == "call" and call_matches(r[1][1], r"Iterator::enumerate$") and not r[2]:
+                extra = ("1",)
+                src_o = r[1][1]["args"][0]
+            if _payload_projs(item[2], extra):
+                iter_src = (body, src_o)
+            ok, wit = body.cfg().must_pass([fbb], exits=[nbb], start=nt["t"])
+            every = ok
+        elif item is not None and via is not None and item[0] == "arg" and item[1] == body.arg_count and not item[2]:
+            users, crv = via
+            form = "closure"
+            if len(users) == 1 and users[0][2] == [len(users[0][1]["args"]) - 1] and call_matches(users[0][1], r"^std::iter::Iterator::(for_each|try_for_each)$"):
+                form = "closure given to " + callee_name(users[0][1]).split("::")[-1]
+                iter_src = (db, users[0][1]["args"][0])
+                driver = users[0][0]
+            ok, wit = body.cfg().must_pass([fbb], start=0)
+            every = ok
+        itx = None
+        if iter_src is not None:
+            r = chase(iter_src[0], iter_src[1])
+            itx = callee_name(r[1][1]) if r[0] == "call" else r[0]
+            if r[0] == "call" and call_matches(r[1][1], r"^surface::Surface::iter$") and not r[2]:
+                a = chase(iter_src[0], r[1][1]["args"][0])
+                itx = "surface::Surface::iter(%s)" % ("img" if a[0] == "arg" and a[1] in img_args and not a[2] else "?")
+        drivers.append(driver)
+        ctx.instance("PAYLOAD", {"feed": form, "iterator": itx, "writes": callee_name(data[1][1]) if data[0] == "call" else data[0], "once_per_item": every})
+        if itx != "surface::Surface::iter(img)":
+            ctx.violation("PAYLOAD", where_d, "pixel-order", "pixels are taken from `%s`, not from the image's row-major iterator `img.iter()`" % itx, sites=lp)
+        if not whole or not every:
+            ctx.violation("PAYLOAD", where_d, "pixel-bytes", "each item must write exactly the whole `color.to_rgba()` array once; writes %s%s"
+                          % ((callee_name(data[1][1]) or "?") + ("".join(flow_proj(e) for e in data[2])) if data[0] == "call" else data[0], "" if every else " (not on every path of an iteration)"), sites=lp)
+        if rgba is not None:
+            ty = body.local_ty(rgba["dest"]["l"])
+            m = re.match(r"^\[u8; (\d+)\]$", ty or "")
+            bpps.add(int(m.group(1)) if m else ty)
+    if len(drivers) > 1:
+        dcfg = db.cfg()
+        clash = [(x, y) for i, x in enumerate(drivers) for y in drivers[i + 1:] if x is None or y is None or x == y or y in dcfg.reachable_from(x) or x in dcfg.reachable_from(y)]
+        if clash:
+            ctx.violation("PAYLOAD", where_d, "pixel-loop", "%d places write into the base64 encoder and more than one of them can run in one draw (blocks %s): pixels would be encoded twice"
+                          % (len(drivers), clash[0]), sites=site_d)
+    bpp = bpps.pop() if len(bpps) == 1 else (sorted(map(str, bpps)) or None)
+    # to_rgba() yields [u8; 4]  <->  f=32
+    fvals = {c.keys.get("f") for (_, _, c) in cmds.get(("draw", "transmit-first"), [])}
+    ctx.instance("PAYLOAD", {"bytes_per_pixel": bpp, "declared_format": sorted(map(str, fvals))})
+    for f in fvals:
+        want = refs["pixel_format"].get(f if isinstance(f, str) else "", {}).get("bytes_per_pixel")
+        if want is None or want != bpp:
+            ctx.violation("PAYLOAD", where_d, "format-vs-pixel-bytes", "declared format f=%s means %s bytes per pixel but the loop writes %s" % (hole_text(f) if f is not None else None, want, bpp), sites=lp)
+
+    # ---- Shape::nth is row-major: every Position it can return is {row: n / width, col: n - row * width | n % width} ------------
+    nth = prog.body("surface::Shape::nth")
+    found, ok_nth = 0, nth is not None
+    if nth is not None:
+        try:
+            ps = sympath.evaluator(prog.inlined(nth.path) or nth, max_paths=400).paths()
+        except sympath.TooManyPaths:
+            ps = []
+        n, w = ("arg", 2), ("f", ("arg", 1), "width")
+        for p in ps:
+            if p.end[0] != "return":
+                continue
+            for st in sympath.subterms(sympath.strip(p.ret)):
+                if st[0] == "agg" and st[1].endswith("Position") and st[4] and set(st[4]) == {"row", "col"}:
+                    found += 1
+                    fs = dict(zip(st[4], st[3]))
+                    row, col = fs["row"], fs["col"]
+                    ok_row = row == ("bin", "Div", n, w)
+                    ok_col = col in (("bin", "Sub", n, ("bin", "Mul", row, w)), ("bin", "Sub", n, ("bin", "Mul", w, row)), ("bin", "Rem", n, w))
+                    if not (ok_row and ok_col):
+                        ok_nth = False
+    ok_nth = ok_nth and found > 0
+    ctx.instance("PAYLOAD", {"shape_nth_positions": found, "shape_nth_row_major": ok_nth})
+    if not ok_nth:
+        ctx.violation("PAYLOAD", "surface::Shape::nth", "not-row-major", "Shape::nth is not `row = n / width; col = n - row * width`")
+
+
+def flow_proj(e):
+    k = e["k"]
+    return "." + e["name"] if k == "field" else ("@" + e.get("variant", "?") if k == "downcast" else "<%s>" % k)
 
 
 # ------------------------------------------------------------------------------------------------
@@ -364,12 +1087,13 @@ def run(ctx):
     # ---------------- (a) templates --------------------------------------------------------------
     tmpl = {}
     rows = {}
+    shared = {"alias": {}, "bool": {}}
     for nm in ("draw", "erase"):
         file, fn = fns[nm]
         where = "%s::%s" % (HANDLER, nm)
         try:
-            ex = T.Extractor(src, file, fn, env=param_env(fn))
-            t = ex.template()
+            ex = KExtractor(src, file, fn, env=param_env(fn), mir=bodies[nm], shared=shared)
+            t = rekey(inline_helpers(ex.template(), src, prog, file, HANDLER, shared), shared)
         except T.Unsupported as e:
             ctx.instance("FRAMING", {"fn": where})
             ctx.violation("FRAMING", where, "unsupported-construct", "construct outside the template subset (fail closed): %s" % e, sites=["%s:%d" % (file, fn["line"])])
@@ -439,19 +1163,23 @@ def run(ctx):
             if isinstance(v, T.Hole):
                 n = v.node
                 inner = None
-                if n is not None and n.get("k") == "call" and re.match(r"^(i|u)\d+::from$", T.canon(n["f"])) and len(n["args"]) == 1:
-                    inner = n["args"][0]
-                elif n is not None and n.get("k") == "cast" and n["ty"] in T.INT_TYPES:
-                    inner = n["e"]
+                while n is not None and n.get("k") in ("call", "mcall", "cast"):
+                    # bool -> integer conversions print 0/1: `iN::from(b)`, `b as iN`, `b.into()`, `iN::from(b) as iM`
+                    if n["k"] == "call" and re.match(r"^(i|u)(\d+|size)::from$", T.canon(n["f"])) and len(n["args"]) == 1:
+                        n = inner = n["args"][0]
+                    elif n["k"] == "cast" and n["ty"] in T.INT_TYPES:
+                        n = inner = n["e"]
+                    elif n["k"] == "mcall" and n["m"] == "into" and not n["args"]:
+                        n = inner = n["recv"]
+                    else:
+                        break
                 if inner is None or v.spec != "":
                     return False, "{i32::from(index + 1 < count)}"
                 p, _ = T.cond_pred(inner)
-                return p in more_key, "{i32::from(#index + 1 < <chunks>.len())}"
-            # literal 0/1 selected by a value conditional: must agree with the valuation of the more-variable
-            for p in more_key:
-                if p[0] == "var" and p[1] in val:
-                    return (v == ("1" if val[p[1]] in p[2] else "0")), "1 iff index + 1 < count"
-            return False, "1 iff index + 1 < count"
+                return more_key.pred_is_flag(p), "{i32::from(#index + 1 < <chunks>.len())} or an equivalent condition"
+            # literal 0/1 selected by a value conditional: must agree with index + 1 < count wherever the valuation holds
+            r = more_key.literal_is_flag(v, val)
+            return (r is True or r == "infeasible"), "1 iff index + 1 < count"
         return False, role
 
     nkeys = 0
@@ -468,9 +1196,11 @@ def run(ctx):
             more_key = None
             if cx.startswith("loop:"):
                 it = cx[len("loop:"):]
-                k1, f1 = T.cmp_key("(#index+1)", it + ".len()")
-                k2, f2 = T.cmp_key("#index", "(" + it + ".len()-1)")
-                more_key = [T.p_var(k1, {"gt"} if f1 else {"lt"}), T.p_var(k1, {"lt", "gt"}), T.p_var(k2, {"gt"} if f2 else {"lt"})]
+                counts = [it + ".len()"]
+                m = re.match(r"^(.*)\.chunks\((.*)\)$", it)
+                if m:
+                    counts.append("%s.len().div_ceil(%s)" % (m.group(1), m.group(2)))
+                more_key = MoreFlag(counts)
             allowed = dict(ref["require"])
             allowed.update(ref.get("optional", {}))
             for key, want in ref["require"].items():
@@ -532,6 +1262,10 @@ def run(ctx):
                 c = src.const(a["p"].split("::")[-1])
                 if c and c[1]["expr"].get("k") == "lit" and c[1]["expr"]["t"] == "int":
                     size = int(c[1]["expr"]["v"])
+        if size is None and chunk_recv is not None:
+            ks = {op_const_int(t["args"][1]) for bb, t in (prog.inlined(DRAW) or bodies["draw"]).calls() if call_matches(t, r"\[T\]>::chunks$") and len(t["args"]) == 2}
+            if len(ks) == 1:
+                size = ks.pop()
         ctx.instance("CHUNK", {"loop": chunk_star.iter_text, "size": size})
         ln = ["%s:%s" % (file_d, chunk_star.line)]
         if size is None:
@@ -560,7 +1294,18 @@ def run(ctx):
         if b is None:
             ctx.violation("PAIRING", where_d, role + "-source", "id function %s has no MIR body" % path, sites=site["draw"])
             continue
-        callers = set(cg.callers(path)) if hasattr(cg, "callers") else {p for p, es in cg.edges.items() if path in es}
+        callers = set()
+        todo = [path]
+        while todo:
+            for c in cg.callers(todo.pop()):
+                cb = prog.body(c)
+                root = (cb.closure_root or cb.path) if cb is not None else c
+                if root not in callers:
+                    callers.add(root)
+                    rb = prog.body(root)
+                    # a private free function / inherent method that only serves one caller is part of that caller
+                    if rb is not None and rb.kind in ("Fn", "AssocFn") and not rb.impl_trait and len({(prog.body(x).closure_root or x) if prog.body(x) is not None else x for x in cg.callers(root)}) == 1:
+                        todo.append(root)
         for need, w, nm in ((DRAW, where_d, "draw"), (ERASE, where_e, "erase")):
             if need not in callers:
                 ctx.violation("PAIRING", w, role + "-not-called", "%s does not call %s, which %s uses for the %s" % (nm, path, "draw" if nm == "erase" else "erase", role), sites=site[nm])
@@ -571,20 +1316,24 @@ def run(ctx):
     for k in vs:
         m = re.match(r"^v:(self\.\w+)\.entry\((.*)\)$", k)
         if m:
-            cache_keys.add((m.group(1), m.group(2), k))
+            cache_keys.add((m.group(1), m.group(2), k, "Vacant"))
+        # the same lookup spelled `if !self.<cache>.contains_key(&id) { ..; self.<cache>.insert(id, ..) }`
+        m = re.match(r"^b:(self\.\w+)\.contains_key\((.*)\)$", k)
+        if m:
+            cache_keys.add((m.group(1), m.group(2), k, "F"))
     ctx.instance("PAIRING", {"cache_lookup": sorted(k[2] for k in cache_keys)})
-    cache_var = None
+    cache_var = cache_absent = None
     if len(cache_keys) != 1:
-        ctx.violation("PAIRING", where_d, "cache-lookup", "draw does not branch on exactly one `self.<cache>.entry(<id>)` lookup (found %d)" % len(cache_keys), sites=site["draw"])
+        ctx.violation("PAIRING", where_d, "cache-lookup", "draw does not branch on exactly one `self.<cache>.entry(<id>)` / `.contains_key(<id>)` lookup (found %d)" % len(cache_keys), sites=site["draw"])
     else:
-        field, keyexpr, cache_var = list(cache_keys)[0]
+        field, keyexpr, cache_var, cache_absent = list(cache_keys)[0]
         if image_id is None or keyexpr != image_id.expr:
             ctx.violation("PAIRING", where_d, "cache-key", "the cache is keyed by %s but commands identify the image by %s" % (keyexpr, image_id.expr if image_id else "?"), sites=site["draw"])
 
     # placement id function and its inverse (MIR shape)
     fwd = prog.body("image::" + placement_id_fn.split("::")[-1]) if placement_id_fn else None
     inv = None
-    hb = bodies["handle"]
+    hb = prog.inlined(HANDLE) or bodies["handle"]
     inv_names = set()
     for b2 in [hb] + [prog.body(p) for p in cg.edges.get(HANDLE, ()) if prog.body(p) is not None and "closure" in p]:
         for bb, t in b2.calls():
@@ -599,8 +1348,10 @@ def run(ctx):
     if fwd is None:
         ctx.violation("PAIRING", where_d, "placement-id-shape", "placement id function not found", sites=site["draw"])
     else:
-        ft = return_tree(fwd)
-        mr = mixed_radix(ft)
+        fps = return_paths(prog, fwd)
+        ft = fps[0][1] if fps else ("?",)
+        mrs = [mixed_radix(tr) for _, tr in fps]
+        mr = mrs[0] if mrs and all(m == mrs[0] for m in mrs) else None
         floc = [fwd.loc] if hasattr(fwd, "loc") else []
         if mr is None:
             ctx.violation("PAIRING", fwd.path, "placement-id-shape", "placement id is not `[c +] (a %% D) + (b %% D') * M`: %s" % tree_text(ft), sites=floc)
@@ -617,34 +1368,38 @@ def run(ctx):
             ctx.violation("PAIRING", HANDLE, "inverse-not-found", "handle does not map the reported placement id back with exactly one image::*placement* function (found %s)" % sorted(inv_names))
         elif mr is not None:
             inv = prog.body(list(inv_names)[0])
-            it = return_tree(inv)
             iloc = [inv.loc] if hasattr(inv, "loc") else []
-            okshape = it[0] == "adt" and it[1].startswith("terminal::Position")
-            fields = dict(it[2]) if okshape else {}
             (lf, ld, _), (hf, hd, hm) = mr["low"], mr["high"]
-            lo, hi = fields.get(lf), fields.get(hf)
-            bad = None
-            if not okshape or lo is None or hi is None:
-                bad = "inverse does not build Position{row, col}: %s" % tree_text(it)
-            else:
-                if not (lo[0] == "rem" and lo[2] == ("const", ld)):
-                    bad = "%s must be (id - %d) %% %d, found %s" % (lf, mr["off"], ld, tree_text(lo))
+            # every returning path that an id produced by the forward function (id >= offset) can take must undo it
+            ips = [(fs, it) for fs, it in return_paths(prog, inv) if not excluded_by_lower_bound(fs, 1, mr["off"])]
+            bad = None if ips else "no returning path of the inverse is understood"
+            for fs, it in ips:
+                okshape = it[0] == "adt" and it[1].startswith("terminal::Position")
+                fields = dict(it[2]) if okshape else {}
+                lo, hi = fields.get(lf), fields.get(hf)
+                if not okshape or lo is None or hi is None:
+                    bad = "inverse does not build Position{row, col}: %s" % tree_text(it)
                 else:
-                    x, off = strip_offset(lo[1])
-                    if off != mr["off"] or x != ("arg", 1):
+                    if not (lo[0] == "rem" and lo[2] == ("const", ld)):
                         bad = "%s must be (id - %d) %% %d, found %s" % (lf, mr["off"], ld, tree_text(lo))
-                if bad is None:
-                    h = hi
-                    if h[0] == "rem" and h[2][0] == "const":
-                        h = h[1]
-                    if not (h[0] == "div" and h[2] == ("const", hm)):
-                        bad = "%s must be (id - %d) / %d, found %s" % (hf, mr["off"], hm, tree_text(hi))
                     else:
-                        x, off = strip_offset(h[1])
+                        x, off = strip_offset(lo[1])
                         if off != mr["off"] or x != ("arg", 1):
+                            bad = "%s must be (id - %d) %% %d, found %s" % (lf, mr["off"], ld, tree_text(lo))
+                    if bad is None:
+                        h = hi
+                        if h[0] == "rem" and h[2][0] == "const":
+                            h = h[1]
+                        if not (h[0] == "div" and h[2] == ("const", hm)):
                             bad = "%s must be (id - %d) / %d, found %s" % (hf, mr["off"], hm, tree_text(hi))
+                        else:
+                            x, off = strip_offset(h[1])
+                            if off != mr["off"] or x != ("arg", 1):
+                                bad = "%s must be (id - %d) / %d, found %s" % (hf, mr["off"], hm, tree_text(hi))
+                if bad:
+                    break
             if bad:
-                ctx.violation("PAIRING", inv.path, "inverse-disagrees", "placement id is %s but its inverse differs: %s" % (tree_text(return_tree(fwd)), bad), sites=iloc)
+                ctx.violation("PAIRING", inv.path, "inverse-disagrees", "placement id is %s but its inverse differs: %s" % (tree_text(ft), bad), sites=iloc)
     # erase addresses the placement of the same position argument: role PLACEMENT_ID above compares `fn($pos.0)`; count it
     dp = cmds.get(("erase", "delete-placement"), [])
     ctx.instance("PAIRING", {"erase_placement": [hole_text(c.keys.get("p")) for _, _, c in dp][:2], "erase_when": [T.val_text(v) for _, v, _ in dp][:2]})
@@ -664,16 +1419,17 @@ def run(ctx):
             ctx.instance("ID-NONZERO", {"role": role})
             ctx.anchor("ID-NONZERO", role.replace(" ", "-") + "-function")
             continue
-        tr = return_tree(b)
-        nz = visibly_nonzero(tr)
-        ctx.instance("ID-NONZERO", {"fn": b.path, "value": tree_text(tr), "visibly_nonzero": nz})
+        rps = return_paths(prog, b)
+        tr = rps[0][1] if rps else ("?",)
+        nz = bool(rps) and all(visibly_nonzero(x) for _, x in rps)
+        ctx.instance("ID-NONZERO", {"fn": b.path, "value": tree_text(tr), "visibly_nonzero": nz, "returning_paths": len(rps)})
         if not nz:
             ctx.violation("ID-NONZERO", b.path, "may-be-zero",
                           "the %s is %s, which can be 0; the protocol reads 0 as 'unspecified' (%s)" % (role, tree_text(tr), refs["keys"]["i" if role == "image id" else "p"]["cite"]),
                           sites=[b.loc] if hasattr(b, "loc") else [])
 
     # ---------------- (d) transmit once ----------------------------------------------------------
-    draw_b = bodies["draw"]
+    draw_b = prog.inlined(DRAW) or bodies["draw"]      # bookkeeping moved into a private helper is still draw's
     # d1: transmit commands only under the Vacant valuation of the cache variable
     n_tx = 0
     bad_tx = []
@@ -684,7 +1440,7 @@ def run(ctx):
         has_tx = any(isinstance(c, Cmd) and c.kind in ("transmit-first", "transmit-cont") for c in row)
         if has_loop or has_tx:
             n_tx += 1
-            if cache_var is None or val.get(cache_var) != "Vacant":
+            if cache_var is None or val.get(cache_var) != cache_absent:
                 bad_tx.append(T.val_text(val))
     ctx.instance("TRANSMIT-ONCE", {"transmitting_paths": n_tx, "cache_var": cache_var})
     if bad_tx:
@@ -692,18 +1448,42 @@ def run(ctx):
     if n_tx == 0:
         ctx.violation("TRANSMIT-ONCE", where_d, "never-transmits", "no path of draw transmits pixel data", sites=site["draw"])
     # d2: MIR — Vacant branch must pass VacantEntry::insert before any Ok return
+    cache_field = list(cache_keys)[0][0].split(".")[-1] if len(cache_keys) == 1 else "imgs"
     vac_blocks = []
-    for i, si, s in draw_b.assigns():
+    ins_alt = []
+    if cache_absent == "F":
+        # contains_key form: the absent branch is the false edge of the test; the insert is HashMap::insert with the same key
+        on_cache = lambda t: bool(re.search(r"\.%s$" % re.escape(cache_field), arg_place(draw_b, t, 0) or ""))
+        for bb, t in draw_b.calls():
+            if call_matches(t, r"HashMap::<.*>::contains_key$") and on_cache(t) and not t["dest"]["p"]:
+                cur, neg, x = t["dest"]["l"], False, t["t"]
+                for _ in range(8):
+                    blk = draw_b.blocks[x]
+                    for st in blk["stmts"]:
+                        if st["k"] == "assign" and not st["place"]["p"] and st["rv"]["k"] == "un" and st["rv"]["op"] == "Not" and op_local(st["rv"]["a"]) == cur:
+                            cur, neg = st["place"]["l"], not neg
+                        elif st["k"] == "assign" and not st["place"]["p"] and st["rv"]["k"] == "use" and op_local(st["rv"]["a"]) == cur:
+                            cur = st["place"]["l"]
+                    tm = blk["term"]
+                    if tm["k"] == "switch" and op_local(tm["d"]) == cur and tm["vals"] == ["0"]:
+                        vac_blocks.append(tm["otherwise"] if neg else tm["targets"][0])
+                        break
+                    if tm["k"] != "goto":
+                        break
+                    x = tm["t"]
+                key = expr(draw_b, t["args"][1])
+                ins_alt += [b2 for b2, t2 in draw_b.calls() if call_matches(t2, r"HashMap::<.*>::insert$") and on_cache(t2) and expr(draw_b, t2["args"][1]) == key]
+    for i, si, s in draw_b.assigns() if cache_absent != "F" else ():
         rv = s["rv"]
         if rv["k"] == "use" and rv["a"]["k"] in ("copy", "move"):
             pr = rv["a"]["place"]["p"]
             if any(e["k"] == "downcast" and e.get("variant") == "Vacant" for e in pr):
                 vac_blocks.append(i)
-    ins = [bb for bb, t in draw_b.calls() if call_matches(t, r"VacantEntry::<.*>::(insert|insert_entry)$") or call_matches(t, r"hash_map::VacantEntry.*::insert")]
+    ins = ins_alt + [bb for bb, t in draw_b.calls() if call_matches(t, r"VacantEntry::<.*>::(insert|insert_entry)$") or call_matches(t, r"hash_map::VacantEntry.*::insert")]
     okret = ok_return_blocks(draw_b)
     ctx.instance("TRANSMIT-ONCE", {"vacant_blocks": vac_blocks, "insert_blocks": ins, "ok_returns": sorted(okret)})
     if len(vac_blocks) != 1:
-        ctx.violation("TRANSMIT-ONCE", DRAW, "vacant-branch", "draw does not have exactly one Entry::Vacant branch in MIR (found %d)" % len(vac_blocks), sites=site["draw"])
+        ctx.violation("TRANSMIT-ONCE", DRAW, "vacant-branch", "draw does not have exactly one branch for an image that is not in the cache (Entry::Vacant / !contains_key) in MIR (found %d)" % len(vac_blocks), sites=site["draw"])
     else:
         ok, wit = draw_b.cfg().must_pass(ins, exits=okret, start=vac_blocks[0])
         if not ins or not ok:
@@ -747,7 +1527,7 @@ def run(ctx):
     # d5: handle removes the cached id before re-drawing (MIR)
     hcfg = hb.cfg()
     draws = [bb for bb, t in hb.calls() if call_matches(t, r"ImageHandler>::draw$|KittyImageHandler::draw$")]
-    removes = [bb for bb, t in hb.calls() if call_matches(t, r"HashMap::<.*>::remove$") and re.search(r"\.imgs$", arg_place(hb, t, 0) or "")]
+    removes = [bb for bb, t in hb.calls() if call_matches(t, r"HashMap::<.*>::(remove|remove_entry)$") and re.search(r"\.%s$" % re.escape(cache_field), arg_place(hb, t, 0) or "")]
     ctx.instance("TRANSMIT-ONCE", {"handle_draw_blocks": draws, "handle_remove_blocks": removes})
     if not draws:
         ctx.violation("TRANSMIT-ONCE", HANDLE, "no-redraw", "handle never re-draws after an error response")
@@ -757,10 +1537,10 @@ def run(ctx):
     # every error response invalidates the cached id, with or without a placement: the `error.is_some()` edge must lead to the removal on all paths
     err_tests = []
     for bb, t in hb.calls():
-        if call_matches(t, r"Option::<T>::is_some$") and re.search(r"KittyImage\.error$|\.error$", expr(hb, t["args"][0])):
+        if call_matches(t, r"Option::<T>::(is_some|is_none)$") and re.search(r"KittyImage\.error$|\.error$", expr(hb, t["args"][0])):
             sw = hb.blocks[t["t"]]["term"]
-            if sw["k"] == "switch" and sw["vals"] == ["0"]:
-                err_tests.append((t["t"], sw["otherwise"]))
+            if sw["k"] == "switch" and sw["vals"] == ["0"] and op_local(sw["d"]) == t["dest"]["l"]:
+                err_tests.append((t["t"], sw["otherwise"] if call_matches(t, r"is_some$") else sw["targets"][0]))
     if not err_tests:
         # `if let Some(..) = error` / match forms: a discriminant switch over the error field
         for x, blk in enumerate(hb.blocks):
@@ -778,89 +1558,7 @@ def run(ctx):
                           "a failed transmission (error without placement) leaves the id cached and later draws only place an image the terminal never received" % wit)
 
     # ---------------- (e) payload ----------------------------------------------------------------
-    lets = {}
-
-    def collect(n, parents):
-        if n.get("k") == "let" and n.get("pat", {}).get("k") == "ident" and n.get("init") is not None:
-            lets[n["pat"]["name"]] = n
-    walk(fn_d["body"], collect)
-    enc = [nm for nm, st in lets.items() if st["init"].get("k") == "call" and T.canon(st["init"]["f"]).endswith("Base64Encoder::new")]
-    ctx.instance("PAYLOAD", {"encoder_locals": enc})
-    pixel_star = None
-    if len(enc) != 1:
-        ctx.violation("PAYLOAD", where_d, "encoder", "draw does not create exactly one Base64Encoder (found %d)" % len(enc), sites=site["draw"])
-    else:
-        w = enc[0]
-        loops = []
-
-        def find_loops(n, parents):
-            if n.get("k") in ("for", "while", "loop"):
-                hit = [False]
-
-                def m(x, ps):
-                    if x.get("k") == "path" and x.get("p") == w and "generics" in x:
-                        hit[0] = True
-                walk(n["body"], m)
-                if hit[0]:
-                    loops.append(n)
-                    return False
-        walk(fn_d["body"], find_loops)
-        if len(loops) != 1:
-            ctx.violation("PAYLOAD", where_d, "pixel-loop", "expected exactly one loop feeding the base64 encoder, found %d" % len(loops), sites=site["draw"])
-        else:
-            try:
-                ex2 = T.Extractor(src, file_d, fn_d, sinks=[w], env=param_env(fn_d))
-                pt = ex2.expr(loops[0], dict(ex2.env0))
-                ps = [a for a in T.atoms_in(pt, into_loops=False) if isinstance(a, (T.Star, T.Join))]
-                pixel_star = ps[0] if len(ps) == 1 and isinstance(ps[0], T.Star) else None
-            except T.Unsupported as e:
-                ctx.violation("PAYLOAD", where_d, "unsupported-construct", str(e), sites=site["draw"])
-        # the chunked value is the encoder's finish()
-        src_name = T.canon(chunk_recv) if chunk_recv is not None else None
-        fin = lets.get(src_name)
-        fin_ok = fin is not None and re.match(r"^%s\.finish\(\)\??$" % re.escape(w), T.canon(fin["init"]))
-        ctx.instance("PAYLOAD", {"chunked_value": src_name, "is_finish_of": w if fin_ok else None})
-        if not fin_ok:
-            ctx.violation("PAYLOAD", where_d, "chunks-not-of-encoder-output", "the chunked value `%s` is not `%s.finish()?`" % (src_name, w), sites=site["draw"])
-    lp = ["%s:%s" % (file_d, pixel_star.line)] if pixel_star is not None else site["draw"]
-    if pixel_star is not None:
-        body_atoms = [a for a in T.atoms_in(pixel_star.body) if not isinstance(a, T.Fail)]
-        itx = T.canon(pixel_star.iter_node) if pixel_star.iter_node is not None else ""
-        ctx.instance("PAYLOAD", {"pixel_loop": itx, "body": pixel_star.body.text()})
-        if itx != "$img.iter()":
-            ctx.violation("PAYLOAD", where_d, "pixel-order", "pixels are taken from `%s`, not from the image's row-major iterator `$img.iter()`" % itx, sites=lp)
-        if not (len(body_atoms) == 1 and isinstance(body_atoms[0], T.Raw) and re.match(r"^#item\d*\.to_rgba\(\)$", body_atoms[0].expr)):
-            ctx.violation("PAYLOAD", where_d, "pixel-bytes", "each iteration must write exactly `color.to_rgba()`; writes %s" % pixel_star.body.text(), sites=lp)
-    # MIR: to_rgba() yields [u8; 4]  <->  f=32
-    bpp = None
-    for bb, t in draw_b.calls():
-        if call_matches(t, r"Color>::to_rgba$|::to_rgba$"):
-            ty = draw_b.local_ty(t["dest"]["l"])
-            m = re.match(r"^\[u8; (\d+)\]$", ty or "")
-            bpp = int(m.group(1)) if m else ty
-    fvals = {c.keys.get("f") for (_, _, c) in cmds.get(("draw", "transmit-first"), [])}
-    ctx.instance("PAYLOAD", {"bytes_per_pixel": bpp, "declared_format": sorted(map(str, fvals))})
-    for f in fvals:
-        want = refs["pixel_format"].get(f if isinstance(f, str) else "", {}).get("bytes_per_pixel")
-        if want is None or want != bpp:
-            ctx.violation("PAYLOAD", where_d, "format-vs-pixel-bytes", "declared format f=%s means %s bytes per pixel but the loop writes %s" % (hole_text(f) if f is not None else None, want, bpp), sites=lp)
-    # iterator is Surface::iter over the image, Shape::nth is row-major
-    it_calls = [t for bb, t in draw_b.calls() if call_matches(t, r"^surface::Surface::iter$")]
-    nth = src.fn("nth", impl_self="Shape")
-    ok_nth = False
-    if nth:
-        inits = {}
-
-        def cl(n, parents):
-            if n.get("k") == "let" and n.get("pat", {}).get("k") == "ident" and n.get("init") is not None:
-                inits[n["pat"]["name"]] = T.canon(n["init"])
-        walk(nth[1]["body"], cl)
-        ok_nth = inits.get("row") == "(n/self.width)" and inits.get("col") in ("(n-(row*self.width))", "(n%self.width)", "(n-(self.width*row))")
-    ctx.instance("PAYLOAD", {"surface_iter_calls": len(it_calls), "shape_nth_row_major": ok_nth})
-    if len(it_calls) != 1:
-        ctx.violation("PAYLOAD", where_d, "pixel-order", "draw does not call surface::Surface::iter exactly once (MIR)", sites=lp)
-    if not ok_nth:
-        ctx.violation("PAYLOAD", "surface::Shape::nth", "not-row-major", "Shape::nth is not `row = n / width; col = n - row * width`")
+    payload_rule(ctx, prog, refs, file_d, site["draw"], where_d, cmds)
 
     ctx.exhaustive = False
     obligations(ctx)
